@@ -161,7 +161,7 @@ def _res_ok(r, op):
 WIDTHS = list(range(1, 18)) + [23, 24, 25, 31, 32, 33, 63, 64, 65, 100, 127, 128, 129, 255, 256]
 class _Others(list):
     """things that are no integers: text, None, floats -- and frames, byte strings and sequences (which ARE values in other
-    places of the API), a Decimal, an object that merely converts to an integer"""
+    places of the API), a Decimal"""
     def __init__(self):
         super().__init__(["x", None, 1.5])
         self._full = False
@@ -171,13 +171,9 @@ class _Others(list):
             from decimal import Decimal
             from dali.frame import Frame, ForwardFrame, BackwardFrame
 
-            class Ix:
-                def __index__(self):
-                    return 1
-
-                def __int__(self):
-                    return 1
-            self.extend([Frame(8, 0x55), Frame(1, 1), ForwardFrame(16, 3), BackwardFrame(0), b"\x01", [1], (0,), 2.0, Decimal(1), Ix()])
+            # (an object that converts through __index__ -- a numpy integer, say -- is deliberately not in the list: whether
+            # that counts as an integer operand is a choice the property leaves to the library)
+            self.extend([Frame(8, 0x55), Frame(1, 1), ForwardFrame(16, 3), BackwardFrame(0), b"\x01", [1], (0,), 2.0, Decimal(1)])
             self._full = True
         return self
 
